@@ -84,10 +84,11 @@ def err_type(ty):
 
 
 class Effect:
-    __slots__ = ("kind", "callee", "args", "node", "term", "depth", "loops", "seq", "frame")
+    __slots__ = ("kind", "callee", "args", "node", "term", "depth", "loops", "seq", "frame", "natoms")
 
-    def __init__(self, kind, callee, args, node, term, depth, loops, seq, frame):
+    def __init__(self, kind, callee, args, node, term, depth, loops, seq, frame, natoms=0):
         self.kind, self.callee, self.args, self.node, self.term, self.depth, self.loops, self.seq, self.frame = kind, callee, args, node, term, depth, loops, seq, frame
+        self.natoms = natoms      # number of atoms on the path when the effect happened
 
     @property
     def tcallee(self):
@@ -564,6 +565,8 @@ class Sym:
             if b[0] == "array" and i[0] == "lit" and isinstance(i[1], int) and 0 <= i[1] < len(b[1]):
                 out.append((s, b[1][i[1]]))
             else:
+                if self.is_effect("<index>", [b, i], n, s):
+                    self.add_effect(s, "index", "<index>", [b, i], n, None)
                 out.append((s, ("index", b, i)))
         return out
 
@@ -950,7 +953,7 @@ class Sym:
 
     def add_effect(self, st, kind, callee, args, node, term):
         self.seq += 1
-        st.effects = st.effects + (Effect(kind, callee, tuple(args), node, term, len(st.frames) - 1, st.loop_depth, self.seq, self.frame_id(st)),)
+        st.effects = st.effects + (Effect(kind, callee, tuple(args), node, term, len(st.frames) - 1, st.loop_depth, self.seq, self.frame_id(st), len(st.atoms)),)
 
     # ---- calls
     def ev_call(self, n, st):
@@ -1252,7 +1255,7 @@ class Sym:
                 subs = [(q, (ctor, i)) for i, q in enumerate(p["pats"])]
             else:
                 subs = [(f["pat"], (ctor, f["name"])) for f in p["fields"]]
-            if not self.is_enum_variant(ctor):
+            if not (self.is_enum_variant(ctor) or "Variant" in (r.get("rk") or "")):
                 if k == "tuplestruct":
                     return self.pm_all([(q, self.field(t, str(i)) if t[0] != "ctor" else self.proj(t, ctor, i)) for i, q in enumerate(p["pats"])], st)
                 return self.pm_all([(f["pat"], self.field(t, f["name"])) for f in p["fields"]], st)
@@ -1274,7 +1277,7 @@ class Sym:
                 rk = r.get("rk", "")
                 if rk.startswith("Ctor"):
                     ctor = r.get("ctor_of") or r.get("path")
-                    if self.is_enum_variant(ctor):
+                    if self.is_enum_variant(ctor) or "Variant" in rk:
                         return self.test_variant(t, ctor, st)
                     return [(st, True)]
                 v = self.const_term(r.get("path"))
